@@ -32,6 +32,26 @@ func init() { fake{}.decl() }
 
 var errorType = reflect.TypeOf((*error)(nil)).Elem()
 
+// types that implement error without being the predeclared interface
+type ptrErr struct{ msg string }
+
+func (e *ptrErr) Error() string { return e.msg }
+
+type valErr struct{ msg string }
+
+func (e valErr) Error() string { return e.msg }
+
+type wideErr interface {
+	error
+	Code() int
+}
+
+var (
+	ptrErrType  = reflect.TypeOf((*ptrErr)(nil))
+	valErrType  = reflect.TypeOf(valErr{})
+	wideErrType = reflect.TypeOf((*wideErr)(nil)).Elem()
+)
+
 type native struct {
 	Name   string
 	Type   reflect.Type
@@ -102,6 +122,11 @@ var shapes = []shape{
 	{"V,bool", func(v reflect.Type) []reflect.Type { return []reflect.Type{v, reflect.TypeOf(false)} }},
 	{"V,type-named-error", func(v reflect.Type) []reflect.Type { return []reflect.Type{v, fakeErrorType} }},
 	{"type-named-error", func(v reflect.Type) []reflect.Type { return []reflect.Type{fakeErrorType} }},
+	// results that implement error but are not the predeclared interface
+	{"V,*T-implementing-error", func(v reflect.Type) []reflect.Type { return []reflect.Type{v, ptrErrType} }},
+	{"V,struct-implementing-error", func(v reflect.Type) []reflect.Type { return []reflect.Type{v, valErrType} }},
+	{"V,wider-error-interface", func(v reflect.Type) []reflect.Type { return []reflect.Type{v, wideErrType} }},
+	{"*T-implementing-error", func(v reflect.Type) []reflect.Type { return []reflect.Type{ptrErrType} }},
 }
 
 type batch struct {
@@ -430,7 +455,7 @@ func main() {
 			res := run("quick", b, 0, time.Time{})
 			return res.Findings
 		},
-		Rule: "handlers built with reflect.MakeFunc for every parameter list of 0-2 parameters over 11 native types (int64, string, float64, bool, []string, map[string]int64, any, map[int64]int64, []int64, []map[string]int64, []map[int64]int64) and 3 parameters over 3 types x 10 result shapes (none, V, error, (V,error), (V,V), (V,V,error), (error,V), (V,bool), (V, int type named 'error'), (int type named 'error')) x declarations (matching inputs, every single-position mismatch, one fewer, one more; output in {nil, each of the 7}; outputsError in {false,true}) for NewCallableFunction, and the inputs for NewDynamicCallableFunction; every accepted function is called with 0..4 arguments, and once with a handler returning a non-nil error",
+		Rule: "handlers built with reflect.MakeFunc for every parameter list of 0-2 parameters over 11 native types (int64, string, float64, bool, []string, map[string]int64, any, map[int64]int64, []int64, []map[string]int64, []map[int64]int64) and 3 parameters over 3 types x 14 result shapes (none, V, error, (V,error), (V,V), (V,V,error), (error,V), (V,bool), (V, int type named 'error'), (int type named 'error'), and four with a result that implements error without being the predeclared interface: (V,*T), (V,struct), (V, wider interface), (*T)) x declarations (matching inputs, every single-position mismatch, one fewer, one more; output in {nil, each of the 7}; outputsError in {false,true}) for NewCallableFunction, and the inputs for NewDynamicCallableFunction; every accepted function is called with 0..4 arguments, and once with a handler returning a non-nil error",
 		Assumptions: []string{
 			"reference predicate: parameter and result types equal the schemas' reflected types; an error result is the predeclared interface type error",
 			"interface types other than `error` that embed error are outside the alphabet",
